@@ -24,7 +24,7 @@ ASSUMPTIONS = ['within-period solves use ParameterErrorTolerance 1e-12 so that s
                'period-to-period dynamics are generated with lag gain <= 1.2, so one further step cannot legitimately '
                'amplify an accepted residual beyond the 2x margin']
 
-DYN = ['stable', 'stable_neg', 'drift_pos', 'drift_neg', 'oscillate', 'slow_unstable', 'near_zero', 'mixed_block']
+DYN = ['stable', 'stable_neg', 'drift_pos', 'drift_neg', 'oscillate', 'oscillate_zero', 'slow_unstable', 'near_zero', 'mixed_block']
 
 
 def gen_dyn_block(rng, dyn, T):
@@ -57,6 +57,13 @@ def gen_dyn_block(rng, dyn, T):
         eqs.append(['y', '0.4*y + 0.2*w'])
         lags.append(['LAG_w', 'w', 'k'])
         ics.append(['w', repr(fl(rng, -50, 50, 1))])
+    elif dyn == 'oscillate_zero':
+        # sign flips every period, magnitude (nearly) constant: a period-2 orbit symmetric about zero
+        a = -rng.choice([1.0, 1.0, 0.99999, 0.9999, 0.999])
+        eqs.append(['w', '%s*LAG_w' % repr(a)])
+        eqs.append(['y', '0.4*y + 0.2*w'])
+        lags.append(['LAG_w', 'w', 'k'])
+        ics.append(['w', repr(rng.choice([-1.0, 1.0]) * fl(rng, 1, 100, 1))])
     elif dyn == 'slow_unstable':
         a = rng.choice([1.01, 1.05, 1.2])
         eqs.append(['w', '%s*LAG_w - 1.0' % repr(a)])
